@@ -3,6 +3,7 @@
   `commit` appends exactly the consensus view to every history.
 -/
 import RigoProofs.C19Frame
+import RigoProofs.TxRecv
 
 namespace Rigo
 namespace C19
@@ -42,7 +43,10 @@ theorem runTrx_frame {s s2 : St} {e : Bool} {ht : Int} {tx : TxIn} {rcv : Accoun
          · exact execTransfer_frame hr)
 
 theorem handleTx_frame (s : St) (e : Bool) (ht : Int) (tx : TxIn) : frame (handleTx s e ht tx).1 = frame s := by
-  unfold handleTx
+  by_cases hlen : byteLen tx.to = 20
+  case neg => rw [handleTx_badlen_fst hlen]
+  rw [handleTx_goodlen hlen]
+  unfold handleTxOld
   simp only []
   have h0 := frame_findOrNewAcct s e tx.to
   repeat' split
